@@ -511,6 +511,10 @@ func ruleNumStream(p *Prog, r *Report) {
 			return rule == "R-MAVEN-TOKEN" || rule == "R-MAVEN-RANK" || rule == "R-MAVEN-ALIAS"
 		}, map[string]int{"R-MAVEN-TOKEN": 1, "R-MAVEN-RANK": 2, "R-MAVEN-ALIAS": 2}},
 	}
+	runImports(p, r, specs)
+}
+
+func runImports(p *Prog, r *Report, specs []importSpec) {
 	for _, sp := range specs {
 		scratch := NewReport(r.Prop, r.Tier)
 		for _, fn := range sp.fns {
@@ -528,6 +532,32 @@ func ruleNumStream(p *Prog, r *Report) {
 	}
 }
 
+// ---- C01 for the two-cursor character scanners ----------------------------------------------------------
+//
+// debian's and rpm's string comparators walk both operands with a cursor each; the evaluator cannot
+// summarise that loop, and R-PREORDER uses the scanner as a relation atom (an assumption). The
+// structural rules of C10/C11 discharge the assumption: R-*-SCAN shows that each cursor starts at 0 and
+// advances over its own string only, cutting it into maximal runs by a test on its own characters, and
+// that the runs are handed pairwise to the two run comparators and the first non-tie is returned;
+// R-*-NONDIGIT and R-*-DIGITS show that the run comparators compute fixed total preorders of runs. The
+// scanner therefore compares the two canonical run sequences lexicographically, which is a total
+// preorder. Obligations about other clauses of C10/C11 (which characters separate, segment classes)
+// are left out: the order laws do not depend on them.
+func ruleScannerOrder(p *Prog, r *Report) {
+	specs := []importSpec{
+		{"debian", []ruleFn{ruleDebian}, func(rule, key string) bool {
+			return rule == "R-DEB-SCAN" || rule == "R-DEB-NONDIGIT" || rule == "R-DEB-DIGITS"
+		}, map[string]int{"R-DEB-SCAN": 1, "R-DEB-NONDIGIT": 1, "R-DEB-DIGITS": 1}},
+		{"rpm", []ruleFn{ruleRPM}, func(rule, key string) bool {
+			return rule == "R-RPM-SCAN" || rule == "R-RPM-NONDIGIT" || rule == "R-RPM-DIGITS"
+		}, map[string]int{"R-RPM-SCAN": 1, "R-RPM-NONDIGIT": 1, "R-RPM-DIGITS": 1}},
+	}
+	runImports(p, r, specs)
+}
+
 func init() {
+	register("C01", "", ruleScannerOrder)
+	register("C07", "", ruleScannerOrder)
+	register("C20", "", ruleScannerOrder)
 	register("C03", "", ruleNumStream)
 }
